@@ -361,7 +361,7 @@ def c20(tier, seed, replay=None):
     if r.ok:
         raise vlib.MachineryError("the global-counter variant (pinned defect) was not rejected by the thread model")
     extra.append({"model_mutant": "CounterScope=global", "rejected_by": r.violated or "evaluation error"})
-    fams = [("threads2small", 2, 1000 if q else None)] + ([] if q else [("threads2med", 2, 20000)])
+    fams = [("threads2small", 2, 1000 if q else None)] + ([] if q else [("threads2med", 2, 8000)])
     rc = run_agm("C20", tier, seed, fams, [],
                  "two (thorough: three) threads, at least one of them nested; every interleaving of their machine steps is model-checked "
                  "(states merged by a VIEW); for the small pairs every distinct schedule is exported by TLC and replayed with real threads "
